@@ -313,12 +313,19 @@ func knownClass(e *eco, f failure, req string) string {
 		if (f.law == "match" || f.law == "matchrequirement") && strings.Contains(f.expected, "true") && steppedOverPrerelease(req, f.v) && kf.Open("C03", "GreaterThanStepsOverPrerelease") {
 			return "GreaterThanStepsOverPrerelease"
 		}
-		if f.law == "match" && f.expected == "true" && lessThanZero(req, f.v) && strings.Contains(f.observed, "(set {<empty>})") && kf.Open("C03", "LessThanZeroIsEmpty") {
+		if f.law == "match" && f.expected == "true" && lessThanZero(req, f.v) && kf.Open("C03", "LessThanZeroIsEmpty") {
 			return "LessThanZeroIsEmpty"
 		}
 	}
 	switch e.name {
 	case "npm":
+		// MinVersionLiteralMergedIntoSpan: an alternative names the bound 0.0.0-0
+		// and another one has no lower bound; canonicalisation merges them into one
+		// span whose lower bound is either the user's 0.0.0-0, which then lets every
+		// prerelease of 0.0.0 in, or the internal minimum, which lets none in.
+		if f.law == "match" && strings.Contains(req, "||") && minLiteralC03.MatchString(req) && strings.HasPrefix(strings.TrimPrefix(f.v, "v"), "0.0.0-") && kf.Open("C03", "MinVersionLiteralMergedIntoSpan") {
+			return "MinVersionLiteralMergedIntoSpan"
+		}
 		if f.law == "match" && f.expected == "true" && mergedAwayPrereleaseBound(req, f.v, f.observed) && kf.Open("C03", "UnionMergeLosesPrereleaseBound") {
 			return "UnionMergeLosesPrereleaseBound"
 		}
@@ -332,12 +339,75 @@ func knownClass(e *eco, f failure, req string) string {
 		if (f.law == "match" || f.law == "matchrequirement") && strings.Contains(req, ",") && strings.Contains(f.v, "-") && cargoHasPartialComparator(req) && kf.Open("C03", "CargoPrereleaseMultiComparator") {
 			return "CargoPrereleaseMultiComparator"
 		}
+	case "pypi":
+		// PyPINotEqualPostRelease: "!=V" refuses V.postN (see the C16 finding).
+		if f.law == "match" && f.expected == "true" && notEqualHidesPost(req, f.v) && kf.Open("C03", "PyPINotEqualPostRelease") {
+			return "PyPINotEqualPostRelease"
+		}
+		// PyPIGreaterThanPostLost: ">V" does not admit V.postN; the library
+		// keeps that rule on the span (open lower bound at V), so it is lost when
+		// another comparator of the list moves the bound to V.postN itself.
+		if f.law == "match" && f.expected == "false" && greaterThanPostLost(req, f.v) && kf.Open("C03", "PyPIGreaterThanPostLost") {
+			return "PyPIGreaterThanPostLost"
+		}
 	case "maven":
 		if f.law == "rejected-nonempty" && mavenOpenLowerBelowZero.MatchString(req) && strings.Contains(f.observed, "max less than min") && kf.Open("C03", "MavenOpenLowerBoundBelowZero") {
 			return "MavenOpenLowerBoundBelowZero"
 		}
 	}
 	return ""
+}
+
+var strictGreaterPyPI = regexp.MustCompile(`^\s*>\s*v?([0-9]+(?:\.[0-9]+)*)\s*$`)
+
+// greaterThanPostLost: the requirement has a comparator ">V" (V a plain release),
+// the candidate is a post-release of V, and another comparator names a
+// post-release of V as a bound.
+func greaterThanPostLost(req, v string) bool {
+	lv := strings.ToLower(v)
+	i := strings.Index(lv, "post")
+	if i < 0 {
+		return false
+	}
+	base, err := semver.PyPI.Parse(strings.TrimRight(lv[:i], ".-_"))
+	if err != nil {
+		return false
+	}
+	for _, c := range strings.Split(req, ",") {
+		m := strictGreaterPyPI.FindStringSubmatch(c)
+		if m == nil {
+			continue
+		}
+		if ov, err := semver.PyPI.Parse(m[1]); err == nil && ov.Compare(base) == 0 && strings.Contains(strings.ToLower(req), "post") {
+			return true
+		}
+	}
+	return false
+}
+
+var minLiteralC03 = regexp.MustCompile(`(^|[^0-9.])v?0(\.0){0,2}-0($|[^0-9A-Za-z.-])`)
+
+var notEqualOperand = regexp.MustCompile(`!=\s*v?([0-9]+(?:\.[0-9]+)*)[0-9A-Za-z.]*\s*(?:,|$)`)
+
+// notEqualHidesPost: the candidate is a post-release with the release numbers
+// of the operand of some != comparator of the requirement (the operand itself
+// may be a prerelease of those numbers: packaging's ">V" looks at base versions).
+func notEqualHidesPost(req, v string) bool {
+	pv, err := semver.PyPI.Parse(v)
+	if err != nil || !strings.Contains(strings.ToLower(v), "post") {
+		return false
+	}
+	for _, m := range notEqualOperand.FindAllStringSubmatch(req, -1) {
+		if ov, err := semver.PyPI.Parse(m[1]); err == nil {
+			base := strings.ToLower(v)
+			base = base[:strings.Index(base, "post")]
+			base = strings.TrimRight(base, ".-_")
+			if bv, err := semver.PyPI.Parse(base); err == nil && bv.Compare(ov) == 0 && pv.Compare(ov) > 0 {
+				return true
+			}
+		}
+	}
+	return false
 }
 
 // cargoHasPartialComparator reports whether some comparator of a comma list
